@@ -4,6 +4,7 @@ from ..expressions import (
     AddExpression,
     BinaryExpression,
     ConstantExpression,
+    EqualExpression,
     MathExpression,
     MultiplyExpression,
     NegateExpression,
@@ -60,6 +61,7 @@ class ConstantsSimplifyRule(BaseRule):
             if (
                 child is not None
                 and isinstance(child, BinaryExpression)
+                and not isinstance(child, EqualExpression)
                 and isinstance(child.left, ConstantExpression)
                 and isinstance(child.right, ConstantExpression)
             ):
@@ -69,6 +71,7 @@ class ConstantsSimplifyRule(BaseRule):
         # (4 * 2) + 3
         if (
             isinstance(node, BinaryExpression)
+            and not isinstance(node, EqualExpression)
             and isinstance(node.left, ConstantExpression)
             and isinstance(node.right, ConstantExpression)
         ):
